@@ -58,15 +58,22 @@ LEVEL_TEXT = ('every multiplication mode (add_mul, add_mul_alter, add_mul_dadda,
               '/repo by regenerating the cells (translator T4) and by netlist-equality correspondence on every run '
               '(vm_compute for widths <= 8-12 on bare and host circuits; the same Gallina code extracted to OCaml for '
               'the 10^3-10^4-gate netlists at the Karatsuba / squarer thresholds)')
-LEVEL_NOTE = ('Coq kernel + vm_compute; translators T1, T4, T19 (T19, translator/t19_mul_gen.py on top of T14, regenerates the '
+LEVEL_NOTE = ('Coq kernel + vm_compute; translators T1, T4, T19 + T22 (T19, translator/t19_mul_gen.py on top of T14, with '
+              'its extension T22, translator/t22_wallace.py, for the nested closures of add_mul_wallace, regenerates the '
               'generator ALGORITHMS of multiplication.py / square.py statement by statement from the current source on '
-              'every run - add_mul, add_mul_alter, add_mul_pow2_m1, add_mul_dadda, last_step_sum_with_new_powers_sum, both '
+              'every run - add_mul, add_mul_alter, add_mul_pow2_m1, add_mul_dadda, add_mul_wallace, '
+              'last_step_sum_with_new_powers_sum, both '
               'Karatsuba multipliers, add_square_pow2_m1, add_square, the dispatch tables _process_mul / _process_square '
               'and the wrappers generate_mul / generate_square - and C08_generators_regenerated proves each of them '
               'extensionally equal to the hand model the theorems are about (same result, same final state, same error, '
               'for all arguments; last_step_sum_with_new_powers_sum: not with one empty operand and the other of two or more '
-              'bits, where the hand model says IndexError and Python ValueError; generate_mul: size_of_input_a >= 0); '
-              'add_mul_wallace (nested closures over a mutable cell) stays tied by the correspondence check only; the '
+              'bits, where the hand model says IndexError and Python ValueError; generate_mul: size_of_input_a >= 0; '
+              'add_mul_wallace WITHOUT side condition: every width incl. the empty operands and the OutOfFuel of an empty '
+              'second operand, every naming function incl. one that hands out the placeholder string - the closures '
+              '`_last_gate` / `_zero` are local state-passing functions, the list `zero` that `_zero` mutates is passed in '
+              'and handed back; the column-major label matrix of the source is the transposition of the row-major '
+              'option-cell matrix of the hand model through every 3-to-2 round, the lazily created constant-false gate is '
+              'the hand model\'s up-front gate exactly when has_gap holds); the '
               'summation / subtraction generators the multipliers call are the hand models of C07 / C09, of which T19 '
               'reads the signatures); correspondence harness (order-preserving label renaming '
               'new_%032x -> new_%04x); for the wide shapes the model is EXTRACTED to OCaml (Extraction Language OCaml '
@@ -90,7 +97,9 @@ LEVEL_NOTE = ('Coq kernel + vm_compute; translators T1, T4, T19 (T19, translator
 TECHNIQUE = ('Coq proof: generators as programs of the deep-embedded builder monad over the Circuit model; the generator '
              'algorithms regenerated from the source by a fail-closed ast translator and proved equal to the hand model '
              '(index loops with in-place stores against structural recursion: generic fold lemmas instantiated by '
-             'higher-order unification, anti-diagonals by index, fuelled while loops and recursion); partial '
+             'higher-order unification, anti-diagonals by index, fuelled while loops and recursion, closures as '
+             'state-passing functions, a transposition invariant c = colsof (n + m) rows between the column-major matrix '
+             'of the Wallace source and the row-major matrix of its hand model); partial '
              'products as a matrix with value sum_i 2^i row_i = a * b; default mode through the C07 weighted-sum '
              'theorem plus a gap-freeness invariant and a potential argument (number of levels) on its sorted work lists; column compressors as weighted-bag '
              'rewriting (sum_i 2^i ones(column_i) invariant modulo 2^(n+m), a * b < 2^(n+m) closes the gap); '
